@@ -62,4 +62,24 @@ structure SeqEffect (cr : Crypto π σ β) (cfg : Config) (tx : Tx π σ) (s s' 
   height : s'.height = s.height
   time : s'.time = s.time
 
+
+/-- Well-formedness of reachable states: account numbers are below the global
+    counter; a stored master key hashes to its address; a session has a key and
+    that key hashes to the session address. -/
+structure Inv (cr : Crypto π σ β) (s : State π) : Prop where
+  accLt : ∀ a acc, s.accounts a = some acc → acc.accNum < s.nextAccNum
+  sessLt : ∀ m k ss, s.sessions m k = some ss → ss.accNum < s.nextAccNum
+  accKey : ∀ a acc pk, s.accounts a = some acc → acc.pubKey = some pk → cr.addrOf pk = a
+  sessKey : ∀ m k ss, s.sessions m k = some ss → ∃ key, ss.pubKey = some key ∧ cr.addrOf key = k
+
+/-- The hypotheses about the cryptography under which replay protection is a theorem. -/
+structure CryptoOk (cr : Crypto π σ β) : Prop where
+  /-- a signature verifies for at most one byte string per key (unforgeability-style; NOT a theorem) -/
+  unique : ∀ pk b b' sg, cr.verify pk b sg = true → cr.verify pk b' sg = true → b = b'
+  /-- sign bytes determine account number and sequence (checked against the real
+      `GetSignaturePayload` by the harness) -/
+  inj : ∀ d d' : SignDoc π, cr.signBytes d = cr.signBytes d' → d.accNum = d'.accNum ∧ d.seq = d'.seq
+  /-- distinct keys have distinct addresses (hash collision freeness) -/
+  addr : ∀ p q, cr.addrOf p = cr.addrOf q → p = q
+
 end GnoVerif.C15
